@@ -1,5 +1,5 @@
 CHECK = {
-    "obligations": ["C07.gen_proxy_book", "C07.c06_method_found", "C07.c07_method_served_only", "C07.pinned_mixed_case_refused", "C07.gen_dh", "C07.c07_sound", "C07.c07_else_web", "C07.c07_admin_gate", "C07.c07_window_exact", "C07.c07_sealed_to_server_key",
+    "obligations": ["C07.gen_bypass_key", "C07.gen_proxy_book", "C07.c06_method_found", "C07.c07_method_served_only", "C07.pinned_mixed_case_refused", "C07.gen_dh", "C07.c07_sound", "C07.c07_else_web", "C07.c07_admin_gate", "C07.c07_window_exact", "C07.c07_sealed_to_server_key",
                     "C07.gen_admin_gate", "C07.gen_enc", "C07.gen_db_authn", "C07.gen_db_authz", "C07.gen_structure", "C07.gen_getsession_refusal",
                     "C07.c07_handled", "C07.c07_not_accepted_web", "C07.c07_refused_session_web", "C07.c07_stall_pinned_witness", "C07.dispatchInfo_no_stall",
                     "C07.dispatchInfo_entitled", "C07.authFrag_ok", "C07.dbAuthenticate_iff", "HS.window_exact", "HS.gen_tol"],
